@@ -1,7 +1,7 @@
 """C13 - including a file equals reading its text in place (DESIGN 4/C13)."""
 from runner import Ob
 from props.common import run_with
-from props.inclcommon import push_obs, pop_obs, rest_obs
+from props.inclcommon import push_obs, pop_obs, rest_obs, rdfail_obs
 from props.parsecommon import parse_step_obs
 
 NEEDS_LEXER = True
@@ -9,7 +9,7 @@ FUNCS = ["cfg_lexer_include", "<<EOF>> rule actions (all start conditions)", "cf
 
 
 def build_obs(tier, tables):
-    obs = push_obs("c13") + pop_obs("c13") + rest_obs("c13", depths=(1, 3))
+    obs = push_obs("c13") + pop_obs("c13") + rest_obs("c13", depths=(1, 3)) + rdfail_obs("c13")
     obs.append(Ob("c13-flex-unreadable-input", "flex_input.c", [], unwind=6, checks="none", must_reach=("end of harness",),
                   params={"what": "real yy_get_next_buffer() of the flex output with fread() == 0 and ferror() set (a directory as include target)"}))
     obs.append(Ob("c13-include-argc", "incl_call.c", [], unwind=6, checks="std", must_reach=("end of harness", "argc", "one")))
